@@ -51,6 +51,10 @@ type world struct {
 	genesis   types.HashHeight
 	// momentums that are correctly produced and signed but fail verification on any honest node (the dishonest tails)
 	unverifiable map[*nom.DetailedMomentum]bool
+	// short-tick worlds only: per fork depth, the key of the pillar that the LOCAL chain elects for the time slot of the
+	// side chain's last momentum, when that differs from the side chain's own (correct) election
+	ownElected map[int]*wallet.KeyPair
+	small      bool
 }
 
 func keyOf(addr types.Address) *wallet.KeyPair {
@@ -62,9 +66,12 @@ func keyOf(addr types.Address) *wallet.KeyPair {
 	panic("no key")
 }
 
-func buildWorld(c *xs.Ctx, length int, depths []int) *world {
+func buildWorld(c *xs.Ctx, length int, depths []int, small bool) *world {
 	w := &world{name: fmt.Sprintf("L%d", length), sides: map[int][]*nom.DetailedMomentum{}, sideLen: map[int]int{}, dishonest: map[int][]*nom.DetailedMomentum{},
-		unverifiable: map[*nom.DetailedMomentum]bool{}}
+		unverifiable: map[*nom.DetailedMomentum]bool{}, ownElected: map[int]*wallet.KeyPair{}, small: small}
+	if small {
+		w.name = fmt.Sprintf("S%d", length) // election ticks of 3 slots: forks can reach back over two ticks and change an election
+	}
 	p := vnode.New(vnode.Options{Dir: c.TempDir()})
 	defer p.Destroy()
 	// local chain of `length` momentums above genesis, with some content at the start and near the tip
@@ -96,6 +103,11 @@ func buildWorld(c *xs.Ctx, length int, depths []int) *world {
 				panic(fmt.Sprintf("side sync: %v %v", err, pan))
 			}
 		}
+		if small {
+			// the fork moves election weight (user 1, the largest backer, re-delegates to pillar 3): later ticks of the two
+			// branches have different proof momentums and different weights, hence different schedules
+			ops.Apply(q, ops.Op{K: "Call", S: "delegate", A: 0, B: 2})
+		}
 		ops.Apply(q, ops.Op{K: "T", A: 4, B: 2, V: 9})
 		ops.Apply(q, ops.Op{K: "M", V: 1})
 		for i := 0; i < d; i++ {
@@ -105,6 +117,12 @@ func buildWorld(c *xs.Ctx, length int, depths []int) *world {
 			ops.Apply(q, M)
 		}
 		w.sides[d] = q.Range(L-uint64(d)+1, q.Height()) // d+1 momentums
+		if small {
+			tail := w.sides[d][len(w.sides[d])-1].Momentum
+			if own, err := p.Cons.GetMomentumProducer(*tail.Timestamp); err == nil && own != nil && *own != tail.Producer() {
+				w.ownElected[d] = keyOf(*own)
+			}
+		}
 		if d <= 3 {
 			// the misbehaving pillar puts the stale block into its pool unverified and produces
 			if e, _ := q.AddAccountBlocks([]*nom.AccountBlock{vnode.CloneBlock(w.stale)}); e == nil {
@@ -386,6 +404,20 @@ func shapesFor(w *world) []*shape {
 	for d, side := range w.sides {
 		d, side := d, side
 		base := func(w *world) []*nom.DetailedMomentum { return w.local[:L-d] }
+		if key := w.ownElected[d]; key != nil && d <= 30 {
+			// short-tick world: the longer side chain is genuine except for its last momentum, which is signed by the pillar
+			// that the node's OWN chain elects for that slot (the side chain elects another one). Before the delivery the
+			// node is asked for that slot's producer, as an RPC client or its own pillar would.
+			tailTime := *side[len(side)-1].Momentum.Timestamp
+			add(&shape{Name: fmt.Sprintf("fork-depth-%d-longer-last-signed-by-pillar-elected-on-own-chain", d),
+				pre: func(n *vnode.Node, w *world) { n.Cons.GetMomentumProducer(tailTime) },
+				batch: func(w *world) []*nom.DetailedMomentum {
+					b := vnode.CloneBatch(side)
+					b[len(b)-1] = mutate(b[len(b)-1], func(x *nom.DetailedMomentum) { resign(x.Momentum, key) })
+					return b
+				},
+				expectChain: localOf, expectErr: true, expectIdx: len(side) - 1})
+		}
 		for _, rel := range []string{"shorter", "equal", "longer"} {
 			n := map[string]int{"shorter": d - 1, "equal": d, "longer": d + 1}[rel]
 			if n < 1 {
@@ -682,6 +714,11 @@ func classify(name string) string {
 	return name
 }
 
+// smallWorlds: worlds built under election ticks of 3 slots (a process-global setting: they get worker processes of their own)
+func smallWorlds(tier string) [][2]interface{} {
+	return [][2]interface{}{{14, []int{4, 5, 6, 7}}}
+}
+
 func worlds(tier string) [][2]interface{} {
 	ws := [][2]interface{}{{3, []int{1, 2}}, {8, []int{1, 2, 3}}}
 	if tier == "thorough" {
@@ -722,21 +759,36 @@ func run(c *xs.Ctx, r *xs.Result) {
 		json.Unmarshal(c.Replay, &only)
 	}
 	i := 0
-	for _, wd := range worlds(c.Tier) {
+	// the last two workers run the short-tick worlds (consensus configuration is process-global); the others the default ones
+	smallMode := (c.NShards >= 4 && c.Shard >= c.NShards-2) || strings.HasPrefix(only.World, "S")
+	mine := func(i int) bool { return c.Mine(i) }
+	list, prefix := worlds(c.Tier), "L"
+	if c.NShards >= 4 {
+		if smallMode {
+			mine = func(i int) bool { return i%2 == c.Shard-(c.NShards-2) }
+		} else {
+			mine = func(i int) bool { return i%(c.NShards-2) == c.Shard }
+		}
+	}
+	if smallMode {
+		vnode.SmallConsensus(2)
+		list, prefix = smallWorlds(c.Tier), "S"
+	}
+	for _, wd := range list {
 		var w *world
-		name := fmt.Sprintf("L%d", wd[0].(int))
+		name := fmt.Sprintf("%s%d", prefix, wd[0].(int))
 		if only.World != "" && only.World != name {
 			continue
 		}
 		// shapes are enumerated from a world; build lazily only if this shard has work (cheap enough: always build)
-		w = buildWorld(c, wd[0].(int), wd[1].([]int))
+		w = buildWorld(c, wd[0].(int), wd[1].([]int), smallMode)
 		for _, s := range shapesFor(w) {
 			i++
 			if only.Shape != "" {
 				if only.Shape != s.Name {
 					continue
 				}
-			} else if !c.Mine(i) {
+			} else if !mine(i) {
 				continue
 			}
 			if c.Expired() {
@@ -753,7 +805,7 @@ func run(c *xs.Ctx, r *xs.Result) {
 			for _, s1 := range all {
 				for _, s2 := range all {
 					i++
-					if !c.Mine(i) {
+					if !mine(i) {
 						continue
 					}
 					if c.Expired() {
